@@ -1,0 +1,31 @@
+//go:build !verif
+
+// Package verifhook holds the seams used by the deterministic simulator that
+// lives outside this repository. Without the "verif" build tag every hook is a
+// constant-false guard plus no-op functions, so shipped behaviour is unchanged.
+package verifhook
+
+import (
+	"context"
+	"net"
+)
+
+// Enabled reports whether the simulation hooks are compiled in.
+const Enabled = false
+
+// Dial is never called when Enabled is false.
+func Dial(ctx context.Context, network, addr string) (net.Conn, bool, error) {
+	return nil, false, nil
+}
+
+// Yield is a no-op without the verif tag.
+func Yield(site string) {}
+
+// PoolGet is a no-op without the verif tag.
+func PoolGet(pool any) (any, bool) { return nil, false }
+
+// PoolPut is a no-op without the verif tag.
+func PoolPut(pool any, v any) bool { return false }
+
+// Order returns nil (keep the natural order) without the verif tag.
+func Order(keys []string) []int { return nil }
